@@ -291,3 +291,138 @@ func SubShapes() []*prog.Program {
 	out = append(out, b.Done())
 	return out
 }
+
+// AnswerShapes: the C08 corpus.  Task t1 accepts error answers (retries > 0
+// marks it for the export), writes a decision variable v and an inert result r
+// that no condition reads.
+func AnswerShapes() []*prog.Program {
+	var out []*prog.Program
+	{
+		b := prog.NewBuilder("ans_xor")
+		s := b.AddNode("start", "")
+		t1 := b.AddNode("task", "")
+		b.N(t1).Writes = []string{"v", "r"}
+		b.N(t1).Retries = 1
+		b.P.Dom["v"] = []int{0, 1}
+		b.P.Dom["r"] = []int{1, 2, 3}
+		b.P.Vars0["v"] = 0
+		b.P.Vars0["r"] = 0
+		x := b.AddNode("xor", "")
+		t2 := b.AddNode("task", "")
+		t3 := b.AddNode("task", "")
+		e1 := b.AddNode("end", "")
+		e2 := b.AddNode("end", "")
+		b.Connect(s, t1, prog.Cond{})
+		b.Connect(t1, x, prog.Cond{})
+		b.Connect(x, t2, prog.Cond{K: "eq", V: "v", C: 1})
+		d := b.Connect(x, t3, prog.Cond{})
+		b.N(x).Default = d
+		b.Connect(t2, e1, prog.Cond{})
+		b.Connect(t3, e2, prog.Cond{})
+		b.P.Tags = append(b.P.Tags, "answers")
+		out = append(out, b.Done())
+	}
+	{
+		b := prog.NewBuilder("ans_par")
+		s := b.AddNode("start", "")
+		f := b.AddNode("and", "")
+		j := b.AddNode("and", "")
+		t1 := b.AddNode("task", "")
+		b.N(t1).Writes = []string{"r"}
+		b.N(t1).Retries = 1
+		b.P.Dom["r"] = []int{1, 2}
+		b.P.Vars0["r"] = 0
+		t4 := b.AddNode("task", "")
+		t5 := b.AddNode("task", "")
+		e := b.AddNode("end", "")
+		b.Connect(s, f, prog.Cond{})
+		b.Connect(f, t1, prog.Cond{})
+		b.Connect(f, t4, prog.Cond{})
+		b.Connect(t1, j, prog.Cond{})
+		b.Connect(t4, j, prog.Cond{})
+		b.Connect(j, t5, prog.Cond{})
+		b.Connect(t5, e, prog.Cond{})
+		b.P.Tags = append(b.P.Tags, "answers", "and")
+		out = append(out, b.Done())
+	}
+	{
+		// conditional flows leaving the answered task read its result
+		b := prog.NewBuilder("ans_condflow")
+		s := b.AddNode("start", "")
+		t1 := b.AddNode("task", "")
+		b.N(t1).Writes = []string{"v"}
+		b.N(t1).Retries = 1
+		b.P.Dom["v"] = []int{0, 1, 2}
+		b.P.Vars0["v"] = 0
+		b.Connect(s, t1, prog.Cond{})
+		for i := 0; i < 2; i++ {
+			t := b.AddNode("task", "")
+			e := b.AddNode("end", "")
+			b.Connect(t1, t, prog.Cond{K: "ge", V: "v", C: i + 1})
+			b.Connect(t, e, prog.Cond{})
+		}
+		b.P.Tags = append(b.P.Tags, "answers", "condflow")
+		out = append(out, b.Done())
+	}
+	return out
+}
+
+// CompletionShapes: the C02 corpus: 1..3 start events, instant completion,
+// parallel tokens.
+func CompletionShapes() []*prog.Program {
+	var out []*prog.Program
+	for k := 1; k <= 3; k++ {
+		b := prog.NewBuilder(fmt.Sprintf("starts%d", k))
+		for i := 0; i < k; i++ {
+			s := b.AddNode("start", "")
+			t := b.AddNode("task", "")
+			e := b.AddNode("end", "")
+			b.Connect(s, t, prog.Cond{})
+			b.Connect(t, e, prog.Cond{})
+		}
+		b.P.Tags = append(b.P.Tags, fmt.Sprintf("starts%d", k))
+		if k > 1 {
+			b.P.Tags = append(b.P.Tags, "multi-start")
+		}
+		out = append(out, b.Done())
+	}
+	{
+		b := prog.NewBuilder("instant")
+		s := b.AddNode("start", "")
+		e := b.AddNode("end", "")
+		b.Connect(s, e, prog.Cond{})
+		b.P.Tags = append(b.P.Tags, "instant")
+		out = append(out, b.Done())
+	}
+	{
+		b := prog.NewBuilder("par2")
+		s := b.AddNode("start", "")
+		f := b.AddNode("and", "")
+		j := b.AddNode("and", "")
+		e := b.AddNode("end", "")
+		b.Connect(s, f, prog.Cond{})
+		for i := 0; i < 2; i++ {
+			t := b.AddNode("task", "")
+			b.Connect(f, t, prog.Cond{})
+			b.Connect(t, j, prog.Cond{})
+		}
+		b.Connect(j, e, prog.Cond{})
+		b.P.Tags = append(b.P.Tags, "and")
+		out = append(out, b.Done())
+	}
+	{
+		b := prog.NewBuilder("stuck_xor")
+		s := b.AddNode("start", "")
+		t := b.AddNode("task", "")
+		x := b.AddNode("xor", "")
+		t2 := b.AddNode("task", "")
+		e := b.AddNode("end", "")
+		b.Connect(s, t, prog.Cond{})
+		b.Connect(t, x, prog.Cond{})
+		b.Connect(x, t2, prog.Cond{K: "false"})
+		b.Connect(t2, e, prog.Cond{})
+		b.P.Tags = append(b.P.Tags, "xor-nodefault")
+		out = append(out, b.Done())
+	}
+	return out
+}
